@@ -415,6 +415,9 @@ def run(ctx):
     # ================================================================= real-expanded quaternion_schur
     _check_real_schur(ctx, f_real, prog)
 
+    # ================================================================= D4 shift estimator: no division by an unchecked zero norm
+    _check_shift_estimator(ctx, prog)
+
     ctx.require_instances("C10.D1.similarity", 20)
     ctx.require_instances("C10.D1.composition", 20)
     ctx.require_instances("C10.D2.deflation", 20)
@@ -602,3 +605,57 @@ def _check_real_schur(ctx, f_real, prog):
 
 def _pre_cleanup(H0, T):
     return T
+
+
+def _check_shift_estimator(ctx, prog):
+    """_estimate_shifts_power_deflate feeds the aed/ds variants with real shifts.  A division by the norm of the power
+    iterate is allowed only on a path where that norm was tested non-zero (nilpotent / zero leading blocks give exactly 0);
+    otherwise a NaN shift poisons H and Q while the max()-based convergence test still reports converged."""
+    from .common_nc import implies_nonzero, cond_parts as raw_parts
+    f = prog.func("decomp.schur", "_estimate_shifts_power_deflate")
+    ctx.touch(f)
+    for zero_first in (False, True):
+        state = {"n": 0}
+
+        def chooser(interp, node, cond, zero_first=zero_first, state=state):
+            why = getattr(cond, "why", None)
+            if why == "isfinite":
+                return True
+            parts = raw_parts(cond)
+            if parts and parts[0] in ("gt", "eq", "ne", "ge", "lt", "le"):
+                state["n"] += 1
+                op = parts[0]
+                nonzero = not (zero_first and state["n"] == 2)
+                return nonzero if op in ("gt", "ne", "ge") else (not nonzero)
+            return None
+        it, d = new_interp(ctx, chooser=chooser)
+        H = sym_quat("h", (2, 2))
+        st, out = run_guarded(lambda: it.run(f, [H], dict(steps=1)))
+        tag = f"_estimate_shifts_power_deflate zero-iterate={zero_first}"
+        if st != "ok":
+            ctx.ob("C10.D4.shift-estimator", tag, False, f"fails in-domain: {out}", where=f.where, construct="shift estimator fails",
+                   loc=f.loc())
+            continue
+        bad = []
+        for b, node, where, ndec in d.divisions:
+            if isinstance(b, SymArr):
+                continue
+            p = P(b)
+            s = p.as_single_atom()
+            if s is None or not (isinstance(s[1], tuple) and s[1][0] == "sqrt"):
+                continue           # regularised or not a norm
+            atom = s[1]
+            decs = it.decision_log[:ndec]
+            if not any(implies_nonzero(c, r, atom) for c, _, r in decs):
+                bad.append(where)
+        ctx.ob("C10.D4.shift-estimator", tag, not bad and all(_finite_expr(v) for v in out),
+               "the power-iteration vector is divided by a norm that was not tested non-zero on this path (an exactly zero iterate "
+               "gives a NaN shift)", where=f.where, construct="shift estimator: unguarded division by the iterate norm", loc=(bad[0] if bad else f.loc()))
+
+
+def _finite_expr(v):
+    try:
+        P(v)
+        return True
+    except TypeError:
+        return False
